@@ -8,6 +8,7 @@
    repeated-run search, not by proof. *)
 From Coq Require Import List NArith Bool Permutation.
 From Verif Require Import Base.Res Model.Analyzer Proofs.AnalyzerProofs Base.Text Model.Scope Proofs.ScopeProofs Gen.GenRules Model.Rules Proofs.RulesProofs.
+From Verif Require Model.ExprKind Proofs.ExprKindProofs.
 Import ListNotations.
 
 Theorem C06_verdict_order_independent :
@@ -82,3 +83,14 @@ Theorem C06_type_resolution_order : forall fs fs', Permutation fs fs' -> NoDup (
   | _, _ => False
   end.
 Proof. exact xform_type_init_perm. Qed.
+
+(* The resolution of bare identifiers in expressions (xform_resolve_late_bound_expr_kind: a stateful fold over the
+   library) is the resolution of every unit by itself, so its verdict is the same for every order of the units and, when it
+   succeeds, every unit's names are resolved as in that unit alone. *)
+Theorem C06_expression_resolution_by_unit : forall us,
+  ExprKind.resolve_expr_kinds (flat_map ExprKind.flat_unit us) = ExprKind.units_res us.
+Proof. exact ExprKindProofs.resolve_by_unit. Qed.
+
+Theorem C06_expression_resolution_order : forall us us', Permutation us us' ->
+  (ExprKind.resolve_expr_kinds (flat_map ExprKind.flat_unit us) = None <-> ExprKind.resolve_expr_kinds (flat_map ExprKind.flat_unit us') = None).
+Proof. exact ExprKindProofs.verdict_perm. Qed.
